@@ -902,7 +902,7 @@ def run(ctx):
         'implements it is tied by stage C of the correspondence',
     ]
     n = 420 if quick else 4000
-    nrel = 144 if quick else 1260
+    nrel = 288 if quick else 1512
     seeds = [ctx.rng.randrange(1 << 40) for _ in range(n)]
     cases, impl, terms, idx = [], [], [], []
     for c in directed_cases() + [gen_case(s) for s in seeds]:
@@ -1029,7 +1029,7 @@ def run(ctx):
 
     # ---- everything again with bottleneck disabled ----
     kseeds = [c['seed'] for c in cases if c['seed'] is not None][: (150 if quick else 1200)]
-    rsub = rel_seeds[: (72 if quick else 612)]
+    rsub = rel_seeds[: (108 if quick else 612)]
     w = run_worker(kseeds, rsub)
     if not w['bn_disabled']:
         ctx.violation('harness-error:bottleneck-still-enabled', 'worker could not disable bottleneck', {}, found_input=False)
